@@ -735,3 +735,4 @@ MANIFEST = {
     "technique": "Lean 4 theorems over a hand-written model + differential correspondence with the real code + metamorphic tests",
 }
 MANIFEST["note"] += " " + py2lean.manifest_note("sliced")
+MANIFEST["note"] += ' Known finding replayed on every run (common.known_probe, exact rational oracle): projections round at the size of the coordinates (sliced_wasserstein([[2^30,2^30]], []) = 1.2e-7); the random streams judge up to rounding relative to the coordinates and draw offsets up to 1e6 feature sizes, so in the regime offset/feature >= 1e7 only the listed inputs are judged (DESIGN 10.13).'
